@@ -177,6 +177,10 @@ func genWalkCase(r *vh.Rand, tier string, c *vh.Case) {
 		if r.Chance(1, 6) {
 			stop = 1 + r.Intn(6)
 		}
+		stopS := strconv.Itoa(stop)
+		if stop > 0 && r.Chance(1, 2) {
+			stopS = "c" + stopS // cancel the context instead of returning false
+		}
 		locm, nl, le := "nil", "-", "-"
 		if r.Chance(1, 3) {
 			locm = "set"
@@ -195,7 +199,7 @@ func genWalkCase(r *vh.Rand, tier string, c *vh.Case) {
 				le = strings.Join(b, ",")
 			}
 		}
-		c.Ops = append(c.Ops, fmt.Sprintf("walk %s %s %d %s %s %s", mode, tok(root), stop, locm, nl, le))
+		c.Ops = append(c.Ops, fmt.Sprintf("walk %s %s %s %s %s %s", mode, tok(root), stopS, locm, nl, le))
 		for j, m := 0, r.Intn(3); j < m; j++ {
 			c.Ops = append(c.Ops, "has "+tok(vh.Pick(r, allToks)))
 		}
@@ -486,6 +490,7 @@ type refWalk struct {
 	entity  bool
 	seen    map[int]bool // nil = no tracker
 	byCid   bool
+	byCodec bool // key = (multihash, raw codec or not): CIDv0/CIDv1 aliases collapse, codec views do not
 	nonloc  map[int]bool
 	stopAt  int
 	out     []int
@@ -500,6 +505,9 @@ func (r *refWalk) visit(c int) {
 		k := c / 3
 		if r.byCid {
 			k = c
+		}
+		if r.byCodec {
+			k = 2*(c/3) + b01(c%3 == 2)
 		}
 		if r.seen[k] {
 			return
@@ -611,7 +619,12 @@ func exec(c vh.Case, o *vh.Out) {
 			o.Kind("tracker-" + trk)
 			o.Emit("ok")
 		case "walk":
-			root, stopAt := parseTok(f[2]), vh.Atoi(f[3])
+			cancelMode := strings.HasPrefix(f[3], "c")
+			root, stopAt := parseTok(f[2]), vh.Atoi(strings.TrimPrefix(f[3], "c"))
+			wctx, cancel := context.WithCancel(ctx)
+			if cancelMode {
+				o.Kind("ctx-cancel")
+			}
 			nonloc, locerr := parseToks(f[5]), parseToks(f[6])
 			var opts []walker.Option
 			if tracker != nil {
@@ -639,13 +652,19 @@ func exec(c vh.Case, o *vh.Out) {
 					t = -3
 				}
 				out = append(out, t)
+				if cancelMode {
+					if len(out) == stopAt {
+						cancel() // the walk notices at its next loop iteration
+					}
+					return true
+				}
 				return len(out) != stopAt
 			}
 			var err error
 			if f[1] == "entity" {
-				err = walker.WalkEntityRoots(ctx, w.cidOf(root), walker.NodeFetcherFromBlockstore(w.bs), emit, opts...)
+				err = walker.WalkEntityRoots(wctx, w.cidOf(root), walker.NodeFetcherFromBlockstore(w.bs), emit, opts...)
 			} else {
-				err = walker.WalkDAG(ctx, w.cidOf(root), walker.LinksFetcherFromBlockstore(w.bs), emit, opts...)
+				err = walker.WalkDAG(wctx, w.cidOf(root), walker.LinksFetcherFromBlockstore(w.bs), emit, opts...)
 			}
 			o.Kind("walk-" + f[1])
 			if stopAt > 0 && len(out) == stopAt {
@@ -662,8 +681,29 @@ func exec(c vh.Case, o *vh.Out) {
 			for t := range locerr {
 				nl[t] = true
 			}
+			freshMap := trk == "map" && len(shadow) == 0 && stopAt == 0
 			ref := &refWalk{w: w, entity: f[1] == "entity", seen: shadow, byCid: trk == "cidset", nonloc: nl, stopAt: stopAt}
 			ref.visit(root)
+			if freshMap {
+				// the property itself, on CIDs (up to CIDv0/CIDv1 aliasing): every non-identity CID reachable through
+				// available blocks is emitted. The walker dedups by multihash alone, so a raw-codec CID over the
+				// multihash of a dag-pb / dag-cbor block can hide that block's subtree.
+				full := &refWalk{w: w, entity: f[1] == "entity", seen: map[int]bool{}, byCodec: true, nonloc: nl}
+				full.visit(root)
+				got := map[int]bool{}
+				for _, t := range out {
+					if t >= 0 {
+						got[t/3] = true // by multihash: what the provide system finally announces
+					}
+				}
+				for _, t := range full.out {
+					if !got[t/3] {
+						o.Kind("mh-alias-skip")
+						o.Fail("c13-multihash-alias-subtree-skipped", "reachable CID %s: its multihash is never emitted, an ancestor's multihash was marked through another codec view", tok(t))
+						break
+					}
+				}
+			}
 			if showToks(out) != showToks(ref.out) {
 				o.Fail("preorder", "emitted %s, recursive pre-order reference %s", showToks(out), showToks(ref.out))
 			}
@@ -691,8 +731,11 @@ func exec(c vh.Case, o *vh.Out) {
 			if tracker != nil && len(out) >= 4 {
 				o.Nontrivial()
 			}
+			cancel()
 			es := "nil"
-			if err != nil {
+			if err == context.Canceled {
+				es = "canceled"
+			} else if err != nil {
 				es = "error"
 			}
 			dd := ""
